@@ -111,6 +111,42 @@ pub fn seam_selftest() -> Result<(), String> {
     if res.value != Some(true) {
         return Err("injected open error did not surface".into());
     }
+    // simulated time: a simulated process that sleeps an hour returns at once, its clock has
+    // advanced by an hour, rename / remove_file / sync_all are counted sandbox calls, and a
+    // process that sleeps for ever is reported as hung without waiting for a wall-clock limit
+    let r2 = root.clone();
+    let spec = world::ProcSpec { entropy: 2, readdir: 2, ..Default::default() };
+    let (s0, r0) = (shim::SEEN_SLEEP.load(Ordering::Relaxed), shim::SEEN_RENAME.load(Ordering::Relaxed));
+    let wall = std::time::Instant::now();
+    let res = world::run_process(&root, &spec, None, move || {
+        let t0 = std::time::Instant::now();
+        std::thread::sleep(std::time::Duration::from_secs(1800));
+        let simulated = t0.elapsed();
+        let f = std::fs::File::create(format!("{r2}/x.tmp"))?;
+        f.sync_all()?;
+        drop(f);
+        std::fs::rename(format!("{r2}/x.tmp"), format!("{r2}/x.fin"))?;
+        std::fs::remove_file(format!("{r2}/x.fin"))?;
+        Ok(simulated)
+    });
+    let counted = res.log.iter().filter(|e| matches!(e.call, "rename" | "unlink" | "fsync")).count();
+    match res.value {
+        Some(d) if d >= std::time::Duration::from_secs(1800) && wall.elapsed() < std::time::Duration::from_secs(600) => {}
+        other => return Err(format!("simulated sleep / clock seam not effective: {other:?} after {:?}", wall.elapsed())),
+    }
+    if shim::SEEN_SLEEP.load(Ordering::Relaxed) == s0 || shim::SEEN_RENAME.load(Ordering::Relaxed) == r0 || counted != 3 {
+        return Err(format!("sleep / rename / unlink / fsync seams are not intercepted by this std/libc ({counted} of 3 counted)"));
+    }
+    let spec = world::ProcSpec { entropy: 3, readdir: 3, ..Default::default() };
+    let wall = std::time::Instant::now();
+    let res = world::run_process(&root, &spec, None, move || -> anyhow::Result<()> {
+        loop {
+            std::thread::sleep(std::time::Duration::from_millis(20));
+        }
+    });
+    if res.exit != world::Exit::Hung || wall.elapsed() > std::time::Duration::from_secs(300) {
+        return Err(format!("a process that sleeps for ever was not reported as hung promptly: {:?} after {:?}", res.exit, wall.elapsed()));
+    }
     Ok(())
 }
 
